@@ -95,16 +95,20 @@ class Signature(object):
         y = beta if beta % 2 == 0 else curve.p() - beta
 
         # Compute the public key
+        # (a candidate that is the point at infinity is not a public key)
+        keys = []
         R1 = ellipticcurve.PointJacobi(curve, x, y, 1, n)
         Q1 = numbertheory.inverse_mod(r, n) * (s * R1 + (-e % n) * generator)
-        Pk1 = Public_key(generator, Q1)
+        if Q1 != ellipticcurve.INFINITY:
+            keys.append(Public_key(generator, Q1))
 
         # And the second solution
         R2 = ellipticcurve.PointJacobi(curve, x, -y % curve.p(), 1, n)
         Q2 = numbertheory.inverse_mod(r, n) * (s * R2 + (-e % n) * generator)
-        Pk2 = Public_key(generator, Q2)
+        if Q2 != ellipticcurve.INFINITY:
+            keys.append(Public_key(generator, Q2))
 
-        return [Pk1, Pk2]
+        return keys
 
 
 class Public_key(object):
